@@ -321,7 +321,7 @@ def step (st : St) (toks : List String) : St × List Issue :=
       if m == "-" then [] else
       let e1 := if flag flags "pm" == "T" && m != cur then [s!"C12:memory-preserve-container-told-mems {id} {cur} -> {m}"] else []
       let e2 := match st.snap.memInfo.find? (·.1 == id) with
-        | some (_, _, pinMem) => if !pinMem && !cfgChange then [s!"C12:mems-told-with-pinning-disabled {id} {m}"] else []
+        | some (_, _, pinMem) => if !pinMem && !cfgChange && m != cur then [s!"C12:mems-told-with-pinning-disabled {id} {cur} -> {m}"] else []
         | none => []
       e1 ++ e2
     let (st, early) := upsM.foldl (fun (acc : St × List Issue) (id, m) =>
